@@ -164,6 +164,22 @@ func Gen(r *hx.Rng, tier string, w io.Writer) {
 	fmt.Fprintln(w, "produce clock=back")
 	fmt.Fprintln(w, "reap")
 	x.drain(3)
+	// the stop request arrives while GetNextBatch is running: the step's context is cancelled when the sequencer has already
+	// deleted the batch; the step goes on (nothing between the call and ExecuteTxs looks at the context) - with an execution
+	// layer that honours the context it fails after the early save; then an ordinary stop and start
+	for _, how := range []string{"produce cancel=during-getnext", "produce cancel=during-getnext exec=ctx"} {
+		x.reset(0)
+		x.arrive(2)
+		fmt.Fprintln(w, "reap")
+		x.arrive(1)
+		fmt.Fprintln(w, how)
+		fmt.Fprintln(w, "restart")
+		fmt.Fprintln(w, "reap")
+		fmt.Fprintln(w, "produce")
+		fmt.Fprintln(w, how) // the queue still holds the second batch
+		fmt.Fprintln(w, how) // empty queue / a block waits at height+1: no sequencer call, nothing to cancel
+		x.drain(4)
+	}
 	// transient datastore errors (outside the property's quantifier; the behaviour of the real code is pinned down by the
 	// model): the queue's write-ahead Put fails -> the hand-off is refused, nothing changes, the retry hands over ONCE
 	for _, qmax := range []int{0, 1} {
@@ -238,6 +254,12 @@ func Gen(r *hx.Rng, tier string, w io.Writer) {
 					fmt.Fprintln(w, "produce exec=fail")
 				} else if r.Chance(10) {
 					fmt.Fprintln(w, "produce clock=same")
+				} else if r.Chance(8) {
+					if r.Chance(50) {
+						fmt.Fprintln(w, "produce cancel=during-getnext")
+					} else {
+						fmt.Fprintln(w, "produce cancel=during-getnext exec=ctx")
+					}
 				} else {
 					fmt.Fprintln(w, "produce")
 				}
